@@ -37,7 +37,11 @@ var SysctlPool = []string{"kernel.shm_rmid_forced", "net.ipv4.ip_local_port_rang
 	"net.ipv4.ip_local_reserved_ports", "net.ipv4.tcp_keepalive_time", "net.ipv4.tcp_fin_timeout", "net.ipv4.tcp_keepalive_intvl", "net.ipv4.tcp_keepalive_probes",
 	"net.ipv4.tcp_rmem", "net.ipv4.tcp_wmem", "kernel.msgmax", "net.ipv4.tcp_syncookies ", "net.core.somaxconn", "kernel.shm_rmid_forced.x", ""}
 var OSPool = []string{"linux", "windows", "Windows", ""}
-var NamePool = []string{"a", "b", "c1", "c-2", "init", "a", "web", "b", "sidecar", "x"}
+var NamePool = []string{"a", "b", "c1", "c-2", "init", "a", "web", "b", "sidecar", "x", "istio-proxy", "istio-init", "pause", "kube-proxy", "linkerd-proxy"}
+
+// VolumeNamePool mixes plain names with names the platform generates itself
+// (a check must not special-case an object by its name).
+var VolumeNamePool = []string{"data", "v", "kube-api-access-x7k2p", "default-token-abcde", "istio-envoy", "tmp", "kube-api-access-", "config", "host", "docker-sock"}
 
 const AppArmorPrefix = "container.apparmor.security.beta.kubernetes.io/"
 const SeccompPodKey = "seccomp.security.alpha.kubernetes.io/pod"
@@ -318,6 +322,23 @@ func podEdits() []podEdit {
 			v := corev1.Volume{Name: "vol-" + k}
 			SetVolumeSource(&v, k)
 			p.Spec.Volumes = append(p.Spec.Volumes, v)
+		})
+	}
+	for _, nm := range VolumeNamePool {
+		for _, k := range []string{"hostPath", "nfs", "emptyDir"} {
+			nm, k := nm, k
+			add("volume="+k+"@"+nm, func(p *corev1.Pod) {
+				v := corev1.Volume{Name: nm}
+				SetVolumeSource(&v, k)
+				p.Spec.Volumes = append(p.Spec.Volumes, v)
+			})
+		}
+	}
+	for _, nm := range []string{"istio-proxy", "istio-init", "pause", "kube-proxy"} {
+		nm := nm
+		add("container-name="+nm, func(p *corev1.Pod) {
+			t := true
+			p.Spec.Containers = append(p.Spec.Containers, corev1.Container{Name: nm, Image: "img", SecurityContext: &corev1.SecurityContext{Privileged: &t, Capabilities: &corev1.Capabilities{Add: []corev1.Capability{"NET_ADMIN"}}}})
 		})
 	}
 	add("volume=none", func(p *corev1.Pod) { p.Spec.Volumes = append(p.Spec.Volumes, corev1.Volume{Name: "nosource"}) })
@@ -614,6 +635,9 @@ func Random(r *rand.Rand) Named {
 	}
 	for r.Intn(100) < 35 {
 		v := corev1.Volume{Name: fmt.Sprintf("v%d", len(p.Spec.Volumes))}
+		if r.Intn(100) < 40 {
+			v.Name = pickS(r, VolumeNamePool)
+		}
 		if r.Intn(100) < 95 {
 			k := pickS(r, VolumeKinds)
 			if r.Intn(100) < 50 {
